@@ -13,7 +13,7 @@ import (
 // (*multi).add/toProto/checkResponse/DeserializeCellBlocks/returnResults/get,
 // Get/Mutate.DeserializeCellBlocks, deserializeCellBlocks, cellFromCellBlock.
 
-var vKeys = []string{"a", "b", "c", "d"}
+var vKeys = []string{"a", "b", "c", "d", "e", "f"}
 
 // vTagCell: a minimal KeyValue whose row is the single byte tag.
 func vTagCell(tag byte) []byte {
@@ -142,8 +142,9 @@ func VerifMultiCorrelation() {
 	mr := &pb.MultiResponse{}
 	var cells []byte
 	wantErr := make([]bool, n)
+	wantClass := make([]int, n) // 0: any error; 1: not-serving (region moved); 2: retry later (region busy)
 	count := make([]int, n)
-	for _, reg := range m.regions {
+	for ri, reg := range m.regions {
 		rar := &pb.RegionActionResult{}
 		var members []int
 		for i, cl := range calls {
@@ -152,9 +153,15 @@ func VerifMultiCorrelation() {
 			}
 		}
 		if verifBool() {
-			rar.Exception = &pb.NameBytesPair{Name: proto.String("x.RegionGone"), Value: []byte("s")}
+			// regions fail for reasons of their own: each call gets its own region's exception
+			class := "org.apache.hadoop.hbase.NotServingRegionException"
+			if ri%2 == 1 {
+				class = "org.apache.hadoop.hbase.RegionTooBusyException"
+			}
+			rar.Exception = &pb.NameBytesPair{Name: proto.String(class), Value: []byte("s")}
 			for _, i := range members {
 				wantErr[i] = true
+				wantClass[i] = 1 + ri%2
 			}
 		} else {
 			done := make([]bool, len(members))
@@ -198,6 +205,11 @@ func VerifMultiCorrelation() {
 		r := <-cl.ResultChan()
 		if wantErr[i] {
 			verifAssert(r.Error != nil && r.Msg == nil, "a call whose action or region failed gets that error")
+			_, nsre := r.Error.(NotServingRegionError)
+			_, busy := r.Error.(RetryableError)
+			verifAssert(wantClass[i] != 1 || nsre, "a call of a region that is not serving gets the not-serving error of its own region")
+			verifAssert(wantClass[i] != 2 || busy, "a call of a busy region gets the retry-later error of its own region")
+			verifAssert(wantClass[i] != 0 || (!nsre && !busy), "a call whose action failed gets the action's own exception")
 			continue
 		}
 		verifAssert(r.Error == nil && r.Msg != nil, "a call whose action succeeded gets its response")
